@@ -348,3 +348,75 @@ func ruleReentrantWait(p *Program, r *Report) {
 		r.ViolPath("cycle-detection", "getOrAdd waits for an in-flight marker without being able to tell that the marker is its own goroutine's (no owner or import stack is compared): a.arrai importing b.arrai importing a.arrai never returns instead of reporting an import cycle", goa.Pos(), path)
 	}
 }
+
+// R16e: the module-root cache only remembers roots where they were found.  findRootFromModule answers from
+// ctxrootcache before it walks the directories, so a wrong entry silently changes which tree a root import
+// `//{/x}` resolves against (a nested module's scripts would read the outer module's files).  Every StoreRoot call
+// must therefore sit on the true branch of a sentinel-existence test (FileExists of <root>/go.mod) of the very root
+// value it stores.
+func ruleRootCacheSoundness(p *Program, r *Report) {
+	r.Begin("R16e", "module-root cache soundness: every ctxrootcache.StoreRoot(ctx, dir, root) call in the module is dominated by the true branch of a test of tools.FileExists(join(root, ModuleRootSentinel)) on the same root value — a root is cached only where its sentinel was just found; any other store (e.g. the importer's root for an imported file's directory) makes nested modules resolve root imports against the wrong tree", 1)
+	defer r.End()
+	store := p.Func("pkg/ctxrootcache", "StoreRoot")
+	if store == nil {
+		r.Undecided("anchor", "ctxrootcache.StoreRoot not found", 0)
+		return
+	}
+	n := 0
+	for _, fn := range p.RepoFns {
+		for _, c := range callsTo(fn, store) {
+			n++
+			r.Fn(FnName(fn))
+			key := fmt.Sprintf("store@%s~%d", FnName(fn), n)
+			if len(c.Call.Args) < 3 {
+				r.Undecided(key, "unexpected StoreRoot signature", c.Pos())
+				continue
+			}
+			root := c.Call.Args[2]
+			ok := false
+			for d := c.Block(); d != nil && !ok; d = d.Idom() {
+				id := d.Idom()
+				if id == nil {
+					break
+				}
+				iff, isIf := id.Instrs[len(id.Instrs)-1].(*ssa.If)
+				if !isIf || id.Succs[0] != d || len(d.Preds) != 1 {
+					continue
+				}
+				// the condition is exactly the bool result of an existence test (not a disjunction with something else)
+				// whose path argument contains root and the sentinel
+				var condCall ssa.Value = iff.Cond
+				if ex, isEx := iff.Cond.(*ssa.Extract); isEx {
+					condCall = ex.Tuple
+				}
+				func(x ssa.Value) bool {
+					fc, isCall := x.(*ssa.Call)
+					if !isCall {
+						return false
+					}
+					g := fc.Call.StaticCallee()
+					if g == nil || !(strings.Contains(g.Name(), "Exists") || g.Name() == "Stat") {
+						return false
+					}
+					for _, a := range fc.Call.Args {
+						usesRoot := DependsOn(a, func(y ssa.Value) bool { return y == root })
+						usesSentinel := DependsOn(a, func(y ssa.Value) bool {
+							k, isK := y.(*ssa.Const)
+							return isK && k.Value != nil && k.Value.Kind() == constant.String && constant.StringVal(k.Value) == "go.mod"
+						})
+						if usesRoot && usesSentinel {
+							ok = true
+						}
+					}
+					return false
+				}(condCall)
+			}
+			r.Check(ok, key, "stores a root whose sentinel was just found", fmt.Sprintf("%s stores a module root in the root cache without having found the sentinel at that root: findRootFromModule answers from the cache first, so scripts in that directory resolve `//{/…}` imports against this root even when a nearer go.mod makes them part of another module", FnName(fn)), c.Pos())
+		}
+	}
+	if n == 0 {
+		r.Undecided("sites", "no StoreRoot call found", 0)
+	}
+}
+
+func init() { register("C16", Rule{"R16e", ruleRootCacheSoundness}) }
